@@ -36,6 +36,13 @@ func main() {
 	}
 }
 
+// faultK: VERIF_FAULTS=<k> enables fault enumeration (C03) with up to k transaction fault points per call.
+func faultK() int {
+	k := 0
+	fmt.Sscanf(os.Getenv("VERIF_FAULTS"), "%d", &k)
+	return k
+}
+
 func run(stack, dir, progFile, out string) {
 	b, err := stacks.Open(stack, dir)
 	must(err)
@@ -58,7 +65,14 @@ func run(stack, dir, progFile, out string) {
 	for sc.Scan() {
 		var p pdrv.Program
 		must(json.Unmarshal(sc.Bytes(), &p))
-		it.Run(p)
+		if maxK := faultK(); maxK > 0 {
+			it.Reset(p.ID)
+			for _, c := range p.Calls {
+				it.ExecWithFaults(c, maxK)
+			}
+		} else {
+			it.Run(p)
+		}
 		n++
 	}
 	must(sc.Err())
